@@ -183,6 +183,38 @@ def _term(e, params):
     return f"(OUnknown {_coq_str(str(k))})"
 
 
+def inline_lets(ts):
+    """`let NAME = EXPR; REST` where REST mentions NAME exactly once -> REST with EXPR in its place (a field shorthand `NAME,`
+    becomes `NAME: EXPR`).  A harmless way of writing the same expression must not change what the theorems see."""
+    while len(ts) > 3 and ts[0][:2] == ("id", "let") and ts[1][0] == "id" and ts[2][:2] == ("punct", "="):
+        name = ts[1][1]
+        d, k = 0, 3
+        while k < len(ts):
+            if ts[k][0] == "punct" and ts[k][1] in "({[":
+                d += 1
+            elif ts[k][0] == "punct" and ts[k][1] in ")}]":
+                d -= 1
+            elif ts[k][:2] == ("punct", ";") and d == 0:
+                break
+            k += 1
+        if k >= len(ts):
+            return ts
+        expr, rest = ts[3:k], ts[k + 1:]
+        occ = [j for j, t in enumerate(rest) if t[:2] == ("id", name) and not (j > 0 and rest[j - 1][:2] in (("punct", "."), ("punct", "::")))]
+        if len(occ) != 1:
+            return ts
+        j = occ[0]
+        prev = rest[j - 1][:2] if j > 0 else None
+        nxt = rest[j + 1][:2] if j + 1 < len(rest) else None
+        line = rest[j][2]
+        simple = not any(t[0] == "punct" and t[1] in ("+", "-", "*", "/", "%", "==", "<", ">", "<=", ">=", "!=") for t in expr)
+        sub = list(expr) if simple else [("punct", "(", line)] + list(expr) + [("punct", ")", line)]
+        if prev in (("punct", ","), ("punct", "{")) and nxt in (("punct", ","), ("punct", "}")):
+            sub = [("id", name, line), ("punct", ":", line)] + list(expr)       # field shorthand
+        ts = rest[:j] + sub + rest[j + 1:]
+    return ts
+
+
 def _value_expr(body, where):
     """The expression that becomes the stored value / the result: the `value:` field of a struct literal,
     the single assignment statement, or the tail expression."""
@@ -198,7 +230,7 @@ def _value_expr(body, where):
             i += 1
         else:
             break
-    ts = ts[i:]
+    ts = inline_lets(ts[i:])
     # struct literal  Name { dimension: .., units: .., value: EXPR[,] }   (possibly wrapped: Angle::new::<radian>(EXPR) is left as a method tree)
     for j in range(len(ts) - 1):
         if ts[j][:2] == ("id", "value") and ts[j + 1][:2] == ("punct", ":") and (j == 0 or ts[j - 1][:2] in (("punct", ","), ("punct", "{"))):
